@@ -63,6 +63,8 @@ class Gen:
         cls = self.fam.get(t[1])
         if self.fam.defs[t[1]]["flavour"] == "plain":
             return cls(self.rng.randint(-5, 99), self.rng.choice(["", "x", "é y", "1"]))
+        if self.fam.defs[t[1]]["flavour"] == "annotations-list":
+            return cls([self.rng.randint(0, 9) for _ in range(self.rng.randint(0, 3))], self.rng.randint(-5, 99))
         return cls(self._v_date(("date",), d), self.rng.randint(-5, 99))
 
     def _v_int(self, t, d):
